@@ -104,6 +104,8 @@ impl GraphQLClientCodegenOptions {
 
     /// All the variable derives to be rendered.
     pub fn all_variable_derives(&self) -> impl Iterator<Item = &str> {
+        #[cfg(graphql_client_verif)]
+        crate::verif_hooks::yield_point("options.all_variable_derives");
         let additional = self
             .variables_derives
             .as_deref()
@@ -116,6 +118,8 @@ impl GraphQLClientCodegenOptions {
 
     /// Traits we want to derive for responses.
     pub fn all_response_derives(&self) -> impl Iterator<Item = &str> {
+        #[cfg(graphql_client_verif)]
+        crate::verif_hooks::yield_point("options.all_response_derives");
         let base_derives = std::iter::once("Deserialize");
 
         base_derives.chain(
@@ -193,6 +197,8 @@ impl GraphQLClientCodegenOptions {
 
     /// Get the custom scalar definitions module
     pub fn custom_scalars_module(&self) -> Option<&syn::Path> {
+        #[cfg(graphql_client_verif)]
+        crate::verif_hooks::yield_point("options.custom_scalars_module");
         self.custom_scalars_module.as_ref()
     }
 
@@ -203,6 +209,8 @@ impl GraphQLClientCodegenOptions {
 
     /// Get the externally defined enums type names
     pub fn extern_enums(&self) -> &[String] {
+        #[cfg(graphql_client_verif)]
+        crate::verif_hooks::yield_point("options.extern_enums");
         &self.extern_enums
     }
 
@@ -238,6 +246,8 @@ impl GraphQLClientCodegenOptions {
 
     /// Get a reference to the path used to resolve serde traits.
     pub fn serde_path(&self) -> &syn::Path {
+        #[cfg(graphql_client_verif)]
+        crate::verif_hooks::yield_point("options.serde_path");
         &self.serde_path
     }
 }
